@@ -136,7 +136,12 @@ def tree_hash(include_tests=False):
 
 def unit_path(u):
     th = tree_hash(include_tests=u.source.startswith(os.path.join(REPO, "test")))
-    h = hashlib.sha256((th + "|" + u.source + "|" + " ".join(u.flags()) + "|" + str(u.patterns)).encode()).hexdigest()[:24]
+    try:
+        with open(u.source, "rb") as f:
+            src = hashlib.sha256(f.read()).hexdigest()
+    except OSError:
+        src = "missing"
+    h = hashlib.sha256((th + "|" + u.source + "|" + src + "|" + " ".join(u.flags()) + "|" + str(u.patterns)).encode()).hexdigest()[:24]
     d = os.path.join(CACHE, th[:16])
     return os.path.join(d, "%s-%s.json" % (u.label().replace("/", "_").replace("@", "_"), h))
 
